@@ -8,7 +8,7 @@ EXPLANATION = "see DESIGN.md C18"
 
 
 def units(tier):
-    return FA.U_GUESS_TYPE + FA.U_READ_FASTA + FA.U_CODE_AVERAGE
+    return (FA.U_GUESS_TYPE + FA.U_READ_FASTA + FA.U_CODE_AVERAGE) + FA.U_MOLECULE_INIT + FA.U_SEQUENCE_INIT
 
 
 def runner_tasks(tier):
